@@ -339,10 +339,17 @@ fn x_direct_bits(case: &Case, ctx: &mut Ctx) -> Option<Violation> {
     let n = case.knob("buf_len").max(1) as usize;
     let mut buf = vec![0u8; n];
     r.fill(&mut buf);
-    let range = match r.below(3) {
-        0 => r.range(1, 0x00FF_FFFF) as u32,
+    let range = match r.below(5) {
+        // never below 2^16: the smallest range a decoder can hold between two operations is
+        // 31 * 2^13 (a bit decoded with the extreme probability from a just normalised range);
+        // below 2^16 one normalisation step is not enough and the two implementations are free
+        // to differ (the assembly normalises once per bit, the portable code loops)
+        0 => r.range(1 << 16, 0x00FF_FFFF) as u32,
         1 => r.range(0x0100_0000, 0xFFFF_FFFF) as u32,
-        _ => 0xFFFF_FFFF,
+        2 => 0xFFFF_FFFF,
+        // the normalisation threshold itself and every value that reaches it by the halving
+        // the loop does per bit: powers of two and their neighbours
+        _ => ((1u64 << (16 + r.below(16))) as i64 + *r.pick(&[0i64, 0, 0, -1, 1])).clamp(1 << 16, 0xFFFF_FFFF) as u32,
     };
     let code = r.range(0, range as u64 - 1) as u32;
     let pos = (n as i64 - case.knob("pos_from_end")).clamp(0, n as i64 + 3) as usize;
